@@ -602,6 +602,9 @@ class RedlineEngine:
         if start_idx == -1:
             if not self.clean_mapper:
                 self.clean_mapper = DocumentMapper(self.doc, clean_view=True)
+            else:
+                # The document may have been edited since the clean map was built
+                self.clean_mapper._build_map()
 
             start_idx, match_len = self.clean_mapper.find_match_index(edit.target_text)
             if start_idx != -1:
@@ -622,7 +625,10 @@ class RedlineEngine:
         if context_span and context_span.ins_id:
             ins_id = context_span.ins_id
             ins_spans = [s for s in active_mapper.spans if s.ins_id == ins_id]
-            if ins_spans:
+            # The proxy edit below is applied through the raw map, so it must be addressed in raw
+            # coordinates even when the match was found in the clean view.
+            raw_ins_spans = [s for s in self.mapper.spans if s.ins_id == ins_id]
+            if ins_spans and raw_ins_spans:
                 ins_start = ins_spans[0].start
                 full_ins_text = "".join(s.text for s in ins_spans)
                 rel_start = start_idx - ins_start
@@ -636,12 +642,13 @@ class RedlineEngine:
                     new_text=expanded_new_text,
                     comment=edit.comment,
                 )
-                proxy_edit._match_start_index = ins_start
+                proxy_edit._match_start_index = raw_ins_spans[0].start
                 return self._apply_single_edit_indexed(proxy_edit)
         # ---------------------------------
 
         effective_new_text = edit.new_text or ""
-        actual_doc_text = self.mapper.full_text[start_idx : start_idx + match_len]
+        # Offsets are in the coordinates of the map that produced the match
+        actual_doc_text = active_mapper.full_text[start_idx : start_idx + match_len]
 
         if actual_doc_text == effective_new_text:
             return True
@@ -705,7 +712,7 @@ class RedlineEngine:
                 return False
 
         if length > 0:
-            context_span = self.mapper.get_context_at_range(start_idx, start_idx + length)
+            context_span = active_mapper.get_context_at_range(start_idx, start_idx + length)
             if context_span and context_span.ins_id:
                 logger.info(f"Detected edit inside Insertion ID={context_span.ins_id}. Converting to Replace.")
                 ins_id = context_span.ins_id
@@ -736,13 +743,13 @@ class RedlineEngine:
 
         if op == EditOperationType.INSERTION:
             final_new_text = edit.new_text or ""
-            anchor_run, insert_before = self.mapper.get_insertion_point(start_idx)
+            anchor_run, insert_before = active_mapper.get_insertion_point(start_idx)
             if insert_before and start_idx != 0:
                 # Block-level insertions (new paragraphs / headings) are placed after the
                 # anchor's paragraph, so they keep anchoring on the preceding paragraph.
                 _, first_style = self._parse_markdown_style(re.split(r"[\r\n]+", final_new_text)[0])
                 if first_style or re.search(r"[\r\n]", final_new_text):
-                    anchor_run, insert_before = self.mapper.get_insertion_anchor(start_idx), False
+                    anchor_run, insert_before = active_mapper.get_insertion_anchor(start_idx), False
             if not anchor_run:
                 return False
 
